@@ -58,7 +58,7 @@ func (f *Flow) classify(env *Envelope) {
 		return
 	}
 	switch {
-	case f.prod != nil && env.To.Equals(f.prod):
+	case (f.prod != nil && env.To.Equals(f.prod)) || env.To.Name() == f.prodName:
 		env.FromRole, env.ToRole = "pc", "p"
 		env.Abs = f.abstract(env.Msg, nil, false)
 	case f.pctl != nil && env.To.Equals(f.pctl):
